@@ -466,6 +466,7 @@ def shards(tier):
             out.append(("noexc", drv, kind, 1 if tier == "quick" else 2))
     out.append(("dup", 2 if tier == "quick" else 3))
     out.append(("sync",))
+    out.append(("atx-threads",))
     return out
 
 
@@ -530,6 +531,72 @@ def run_shard(shard):
         for ka, kb in (("num", "num"), ("twice", "num"), ("off", "dt")):
             outs |= {(ka, kb, o) for o in _explore(res, "tridonic", [(ka, ("value", 5)), (kb, ("value", 6))], "plain", shard[1], dup=True)}
         sample(res, {"driver": "tridonic", "duplicate_reports": True})
+    elif k == "atx-threads":
+        # ATX hat: a bus-monitor THREAD polling the public read_line() while another thread sends a query.  The port read
+        # blocks (model: readers queue up, a line goes to the reader that has waited longest).  One-preemption exploration:
+        # the monitor is suspended after every line of read_line() - inside the port read too - and the sender then runs
+        # send(); the sender must get the answer to ITS command (the driver's lock has to cover the port read).
+        from dalimc.core.preempt import one_preemption
+        from dalimc.core import repo
+        import dali.driver.atxled as AX
+        import logging
+
+        class BlockingHat:
+            def __init__(self):
+                self.rx, self.waiters, self.log = [], [], []
+
+            def write(self, data):
+                self.log.append(bytes(data))
+                self.rx.append(b"J42\n")
+
+            def read_until(self, term):
+                me = object()
+                self.waiters.append(me)
+                ahead = self.waiters[0] is not me
+                out = b""
+                if self.rx and not ahead:
+                    out = self.rx.pop(0)
+                self.waiters.remove(me)
+                return out
+
+            def close(self):
+                pass
+        ser = BlockingHat()
+
+        class _Ser:
+            PARITY_NONE = STOPBITS_ONE = EIGHTBITS = 0
+
+            @staticmethod
+            def Serial(**kw):
+                return ser
+
+        class _T:
+            @staticmethod
+            def sleep(x):
+                pass
+        AX.serial = _Ser
+        AX.time = _T
+        drv = AX.SyncDaliHatDriver(port="/dev/fake", LOG=logging.getLogger("null"))
+        cmd = build_cmd("num", 3)
+
+        def monitor():
+            return drv.read_line()
+
+        def sender():
+            r = drv.send(cmd)
+            raw = r.raw_value
+            return (type(r).__name__, None if raw is None else raw.as_integer)
+        for r in one_preemption(monitor, sender, (repo.REPO, __file__), b_may_block=0.25):
+            res["evaluations"] += 1
+            res["transitions"] += 1
+            case = {"driver": "atx", "spec": [["num", ["value", 0x42]]], "mode": "atx-threads", "k": r["k"]}
+            if r["preempted"] and r["b"] != ("v", ("NumericResponseMask", 0x42)):
+                add_violation(res, "C16:atx:answer-taken-by-monitor-thread",
+                              f"ATX hat: a monitor thread suspended after line {r['k']} of its read_line() (possibly inside the port read) while another "
+                              f"thread ran send(query): send returned {r['b']}, the hat reported 0x42; the monitor read {r['a']}", case)
+            outs.add(("atx-threads", str(r["b"]), r.get("b_blocked")))
+            observe(res, "atx_thread_preemption_points")
+        sample(res, {"driver": "atx", "threads": "monitor read_line() suspended at every line vs send()"})
     elif k == "sync":
         for kind in KINDS:
             for out in OUTS:
@@ -587,6 +654,8 @@ def replay(case):
     res = new_result()
     spec = [(k, tuple(o)) for k, o in case["spec"]]
     drv, mode = case["driver"], case.get("mode", "plain")
+    if mode == "atx-threads":
+        return run_shard(("atx-threads",))["violations"]
     if mode in ("sync", "sync-seq", "atx-seq"):
         return [v for v in run_shard(("sync",))["violations"] if v["case"]["driver"] == drv and v["case"]["spec"] == case["spec"]
                 and v["case"].get("multi") == case.get("multi") and v["case"].get("foreign") == case.get("foreign")]
